@@ -3,10 +3,10 @@
 package main
 
 import (
-	"path/filepath"
 	"flag"
 	"fmt"
 	"os"
+	"path/filepath"
 	"sort"
 	"strconv"
 	"time"
